@@ -29,6 +29,9 @@ import xlsxwriter
 
 from cutplace import _compat, _tools, data, errors
 
+# Line terminator the `csv` module uses by default to end a row.
+_CSV_LINE_TERMINATOR = "\r\n"
+
 # Valid line delimiters for  `fixed_rows()`.
 _VALID_FIXED_ANY_LINE_DELIMITERS = ("\n", "\r", "\r\n")
 _VALID_FIXED_LINE_DELIMITERS = data.LINE_DELIMITER_TO_TEXT_MAP.keys()
@@ -583,13 +586,24 @@ class DelimitedRowWriter(AbstractRowWriter):
 
         super().__init__(target, data_format)
         keywords = _as_delimited_keywords(data_format)
-        if data_format.line_delimiter != data.ANY:
-            keywords["lineterminator"] = data_format.line_delimiter
-        self._delimited_writer = _compat.csv_writer(self._target_stream, **keywords)
+        # Rows are formatted into a buffer using the default line terminator of the csv module
+        # (carriage return and line feed) so that items containing either of them are quoted no
+        # matter which line delimiter is actually written.
+        self._row_buffer = io.StringIO(newline="")
+        self._delimited_writer = _compat.csv_writer(self._row_buffer, **keywords)
+        if data_format.line_delimiter == data.ANY:
+            self._line_separator = _CSV_LINE_TERMINATOR
+        else:
+            self._line_separator = data_format.line_delimiter
 
     def write_row(self, row_to_write):
+        self._row_buffer.seek(0)
+        self._row_buffer.truncate()
+        self._delimited_writer.writerow(row_to_write)
+        row_text = self._row_buffer.getvalue()
+        assert row_text.endswith(_CSV_LINE_TERMINATOR)
         try:
-            self._delimited_writer.writerow(row_to_write)
+            self._target_stream.write(row_text[: -len(_CSV_LINE_TERMINATOR)] + self._line_separator)
         except UnicodeEncodeError as error:
             raise errors.DataFormatError("cannot write data row: %s; row=%s" % (error, row_to_write), self.location)
         self._location.advance_line()
